@@ -14,9 +14,9 @@ import (
 // every s-th element of the inner loop with an offset that rotates with the outer loop, so every
 // inner value is still met (with some outer value).
 type tinyPlan struct {
-	p, q                            int64
+	p, q                              int64
 	nonceStride, addStride, mulStride int
-	fullExp                         bool // all bases x all exponents for Exp/ExpI (else boundary subset)
+	fullExp                           bool // all bases x all exponents for Exp/ExpI (else boundary subset)
 }
 
 func tinyPlans() []tinyPlan {
@@ -102,9 +102,10 @@ func runTiny(r *runner) {
 			}
 			r.count("tiny-enc-sampled", false)
 			r.report(k.encSampledCase(bi(m), *vkit.Seed))
-			if m == half {
-				r.sample("tiny-enc", map[string]interface{}{"part": "enc", "key": name, "m": m, "nonces": len(units) / pl.nonceStride, "example_ciphertext": k.ref.Enc(bi(m), bi(units[nReduced-1])).String()})
-			}
+			r.sample("tiny-enc", func() interface{} {
+				return map[string]interface{}{"part": "enc", "key": name, "m": m, "nonces_for_this_m": len(units) / pl.nonceStride, "pk_variants": variants,
+					"example": map[string]interface{}{"rho": units[nReduced-1], "ciphertext": k.ref.Enc(bi(m), bi(units[nReduced-1])).String()}}
+			})
 		}
 		// (b) refusal: every integer of [-N-2, N+2] outside the range
 		if r.mine(name + "|refuse") {
@@ -162,9 +163,9 @@ func runTiny(r *runner) {
 					r.report(fs)
 				}
 			}
-			if m == half {
-				r.sample("tiny-mul", map[string]interface{}{"part": "mul", "key": name, "m": m, "scalars": fmt.Sprintf("[-%d,%d] stride %d", N, N, pl.mulStride)})
-			}
+			r.sample("tiny-mul", func() interface{} {
+				return map[string]interface{}{"part": "mul", "key": name, "m": m, "nonce": nonceOf(m).String(), "scalars": fmt.Sprintf("[-%d,%d] stride %d", N, N, pl.mulStride)}
+			})
 		}
 		// (e) ValidateCiphertexts / Dec on every integer of [0, N^2+N]
 		const chunk = 4096
